@@ -283,7 +283,7 @@ def run_property(prop, tier, seed):
     t0 = time.time()
     mod = load_check(prop)
     nshards = getattr(mod, 'SHARDS', NSHARDS)
-    watchdog = getattr(mod, 'WATCHDOG', {'quick': 900, 'thorough': 7200})[tier]
+    watchdog = getattr(mod, 'WATCHDOG', {'quick': 600, 'thorough': 5400})[tier]
     outdir = tempfile.mkdtemp(prefix='run-%s-' % prop, dir=env.workdir('runs'))
     procs = [_spawn(prop, tier, seed, i, nshards, outdir)
              for i in range(nshards)]
